@@ -2039,6 +2039,20 @@ class Lowerer:
         if cls in (list, set, frozenset, tuple, dict, range, enumerate, zip, map, filter, reversed):
             return self.builtin(cls, args, kwargs, None)
         mod = cls.__module__ or ""
+        if mod == "collections" and cls.__name__ in ("defaultdict", "OrderedDict", "deque", "Counter"):
+            # a new container of its own; the default factory of a defaultdict is a class (no object), initial items
+            # are stored as elements.  What is later loaded from it is unknown (`shared`), as for any shallow container
+            d = self.tmp(cls.__name__)
+            self.emit(("newShallow", d))
+            for a in list(args) + list(kwargs.values()):
+                if a.is_prim() or a.has_pyobj:
+                    continue
+                self.push()
+                el = self.elements(a if a.items is None else self.materialise(a))
+                if not el.is_prim():
+                    self.emit(("store", d, fid(ELEM), self.materialise(el).var))
+                self.emit(("loop", self.pop()))
+            return AV(var=d, ty=DictOf(UNKNOWN) if cls.__name__ != "deque" else ListOf(UNKNOWN))
         if mod == "itertools":
             # combinations / product / chain / ...: a new iterable whose items are built from the arguments' items
             d = self.tmp(cls.__name__)
